@@ -137,6 +137,26 @@ def check(P, R):
     R.require(len(fors) == 1, 'POST: item loop not found')
     lp = fors[0]
     item = lp.target.id
+    # names by role
+    def _env_store(key):
+        for st in walk_shallow(po.node):
+            if isinstance(st, ast.Assign) and any(isinstance(t, ast.Subscript) and is_const(t.slice, key) for t in st.targets):
+                for t in st.targets:
+                    if isinstance(t, ast.Name):
+                        return t.id
+        return None
+    forms_n, files_n = _env_store('ombott.request.forms'), _env_store('ombott.request.files')
+    rets_ = [n for n in walk_shallow(po.node) if isinstance(n, ast.Return) and isinstance(n.value, ast.Name)]
+    post_n = rets_[-1].value.id if rets_ else None
+    R.require(forms_n and files_n and post_n, 'POST: forms / files / post containers not found by role')
+    its = [d for n in g.nodes for d in rd.gen.get(n, []) if d.kind == 'assign' and T._inside(d.stmt, lp.body) and
+           ((isinstance(d.value, ast.Call) and dotted(d.value.func) == 'FileUpload') or src(d.value) == f'{item}.value')]
+    it_n = its[0].name if its else None
+    dcts = [d for n in g.nodes for d in rd.gen.get(n, []) if d.kind == 'assign' and T._inside(d.stmt, lp.body) and src(d.value) in (forms_n, files_n)]
+    dct_n = dcts[0].name if dcts else None
+    sets_ = [d for n in g.nodes for d in rd.gen.get(n, []) if d.kind == 'assign' and isinstance(d.value, ast.Call) and dotted(d.value.func) == 'set' and not d.value.args]
+    lst_n = sets_[0].name if sets_ else None
+    R.require(it_n and dct_n and lst_n, 'POST: per-item names not found by role')
     # routing by filename
     rt = [n for n in g.nodes if n.kind == 'test' and src(n.ast) == f'{item}.filename' and T._inside(n.ast, lp.body)]
     ok = False
@@ -146,7 +166,7 @@ def check(P, R):
                  if g.edge_dominates(t, 'true', s)}
         fdefs = {d.name: src(d.value) for s in g.reachable_from(T.succ_by_label(t, 'false')) if s.kind == 'stmt' for d in rd.gen.get(s, [])
                  if g.edge_dominates(t, 'false', s)}
-        ok = 'files' in tdefs.values() and 'forms' in fdefs.values() and any('FileUpload(' in v for v in tdefs.values()) \
+        ok = files_n in tdefs.values() and forms_n in fdefs.values() and any('FileUpload(' in v for v in tdefs.values()) \
             and f'{item}.value' in fdefs.values()
     R.ob('C07.c', po, rt[0].ast if rt else lp, ok, text='item with a file name -> FileUpload into files, else value into forms', detail='' if ok else
          'parts are not routed to exactly one of forms / files by the presence of a file name')
@@ -165,16 +185,16 @@ def check(P, R):
             continue
         t, neg = strip_not(n.ast)
         cp = compare_parts(t)
-        if cp and cp[1] in (ast.In, ast.NotIn) and src(cp[0]) == key and src(cp[2]) == 'post':
+        if cp and cp[1] in (ast.In, ast.NotIn) and src(cp[0]) == key and src(cp[2]) == post_n:
             seen_tests.append((n, 'membership'))
         elif isinstance(t, ast.Name):
             for d in rd.at(n, t.id):
-                if d.value is not None and ((isinstance(d.value, ast.Call) and call_attr(d.value) == 'get' and dotted(d.value.func.value) == 'post') or
-                                            (isinstance(d.value, ast.Subscript) and dotted(d.value.value) == 'post')):
+                if d.value is not None and ((isinstance(d.value, ast.Call) and call_attr(d.value) == 'get' and dotted(d.value.func.value) == post_n) or
+                                            (isinstance(d.value, ast.Subscript) and dotted(d.value.value) == post_n)):
                     seen_tests.append((n, 'truthiness'))
         elif cp and cp[1] in (ast.IsNot, ast.Is) and is_const(cp[2], None) and isinstance(cp[0], ast.Name):
             for d in rd.at(n, cp[0].id):
-                if d.value is not None and isinstance(d.value, ast.Call) and call_attr(d.value) == 'get' and dotted(d.value.func.value) == 'post':
+                if d.value is not None and isinstance(d.value, ast.Call) and call_attr(d.value) == 'get' and dotted(d.value.func.value) == post_n:
                     seen_tests.append((n, 'membership'))
     R.require(seen_tests, 'POST: test for a repeated field name not found')
     for (n, how) in seen_tests:
@@ -185,30 +205,31 @@ def check(P, R):
              why='repeated names are collected in submission order, empty values included')
     # promotion once, append afterwards
     prom = [st for st in walk_shallow(lp) if isinstance(st, ast.Assign) and isinstance(st.value, ast.List) and len(st.value.elts) == 1
-            and any(isinstance(t, ast.Subscript) and dotted(t.value) == 'post' for t in st.targets)]
-    ok = bool(prom) and any(isinstance(t, ast.Subscript) and dotted(t.value) == 'dct' for t in prom[0].targets)
+            and any(isinstance(t, ast.Subscript) and dotted(t.value) == post_n for t in st.targets)]
+    ok = bool(prom) and any(isinstance(t, ast.Subscript) and dotted(t.value) == dct_n for t in prom[0].targets)
     if ok:
         t = enclosing(prom[0], ast.If)
-        ok = t is not None and 'listified' in src(t.test) and any(isinstance(c, ast.Call) and dotted(c.func) == 'listified.add' for c in ast.walk(t))
+        ok = t is not None and lst_n in names_loaded(t.test) and any(isinstance(c, ast.Call) and dotted(c.func) == f'{lst_n}.add' for c in ast.walk(t))
     R.ob('C07.c', po, prom[0] if prom else lp, ok, text='second value: post[key] = dct[key] = [first], once (listified)', detail='' if ok else
          'a repeated name is not promoted to one list shared by POST and forms/files exactly once')
-    apps = [c for c in walk_shallow(lp) if isinstance(c, ast.Call) and call_attr(c) == 'append' and c.args and src(c.args[0]) == 'it']
+    apps = [c for c in walk_shallow(lp) if isinstance(c, ast.Call) and call_attr(c) == 'append' and c.args and src(c.args[0]) == it_n]
     ok = len(apps) == 1 and not any(isinstance(c, ast.Call) and call_attr(c) in ('insert', 'sort', 'reverse') for c in walk_shallow(lp))
     R.ob('C07.c', po, apps[0] if apps else lp, ok, text='later values appended in iteration order', detail='' if ok else 'later values of a repeated name are not appended at the end')
-    first = [st for st in walk_shallow(lp) if isinstance(st, ast.Assign) and src(st.value) == 'it' and len(st.targets) == 2]
-    ok = bool(first) and {src(t) for t in first[0].targets} == {f'post[{key}]', f'dct[{key}]'}
+    first = [st for st in walk_shallow(lp) if isinstance(st, ast.Assign) and src(st.value) == it_n and len(st.targets) == 2]
+    ok = bool(first) and {src(t) for t in first[0].targets} == {f'{post_n}[{key}]', f'{dct_n}[{key}]'}
     R.ob('C07.c', po, first[0] if first else lp, ok, text='first value: post[key] = dct[key] = it', detail='' if ok else 'the first value is not stored in both POST and forms/files')
     # iter_items alternates headers / data
     ii = P.func(f'{MP}:FieldStorage.iter_items')
     nx = [c for c in walk_shallow(ii.node) if isinstance(c, ast.Call) and dotted(c.func) == 'next' and len(c.args) == 2]
     pairs = [T.assigned_name_of_call(c) for c in nx]
-    ok = pairs.count('headers') == 2 and pairs.count('data') == 2 and pairs.index('headers') < pairs.index('data')
+    ok = len(pairs) == 5 and pairs[1] == pairs[3] and pairs[2] == pairs[4] and pairs[1] != pairs[2]
     asserts = [a for a in walk_shallow(ii.node) if isinstance(a, ast.Assert)]
     ok = ok and any("'headers'" in src(a) for a in asserts) and any("'data'" in src(a) for a in asserts)
     R.ob('C07.c', ii, nx[1] if len(nx) > 1 else ii.node, ok, text='sections consumed pairwise: headers, then data', detail='' if ok else
          'header and data sections are not paired strictly alternately')
     ys = T.yield_nodes(ii.cfg)
-    ok = len(ys) == 1 and src([x for x in walk_shallow(ys[0].ast) if isinstance(x, ast.Yield)][0].value) == 'field'
+    flds = [d.name for n in ii.cfg.nodes for d in ii.rd.gen.get(n, []) if d.kind == 'assign' and isinstance(d.value, ast.Call) and dotted(d.value.func) == 'cls']
+    ok = len(ys) == 1 and bool(flds) and src([x for x in walk_shallow(ys[0].ast) if isinstance(x, ast.Yield)][0].value) == flds[0]
     R.ob('C07.c', ii, ys[0].ast if ys else ii.node, ok, text='one field yielded per pair', detail='' if ok else 'not exactly one field per header/data pair', nontrivial=False)
 
     # ---- d
@@ -247,12 +268,13 @@ def check_refuted_window(P, R):
     """C06.e's window clause under this property: a refuted remainder must not skip the delimiter search of that window"""
     ed = P.func(f'{MP}:BodyMarkuper._eat_data')
     g = ed.cfg
+    er = c06.eat_data_roles(P)
     loops = [n for n in walk_shallow(ed.node) if isinstance(n, ast.While)]
     lp = loops[0]
     mts = [n for n in g.nodes if n.kind == 'stmt' and T._inside(n.ast, lp.body) and any(isinstance(x, ast.Call) and call_attr(x) == 'match_tail' for x in walk_shallow(n.ast))]
     refs = [n for n in g.nodes if n.kind == 'stmt' and isinstance(n.ast, ast.Assign) and is_const(n.ast.value, None)
-            and {dotted(t) for t in n.ast.targets} == {'trest_len', 'trest'} and T._inside(n.ast, lp.body)]
-    adv = [g.node_of_stmt(x)[0] for x in walk_shallow(lp) if isinstance(x, ast.AugAssign) and dotted(x.target) == 'start']
+            and {dotted(t) for t in n.ast.targets} == {er['trest_len'], er['trest']} and T._inside(n.ast, lp.body)]
+    adv = [g.node_of_stmt(x)[0] for x in walk_shallow(lp) if isinstance(x, ast.AugAssign) and dotted(x.target) == er['start']]
     R.require(refs and mts and adv, '_eat_data: window scan anchors not found')
     for rf in refs:
         ok = all(g.must_pass(rf, a, mts) for a in adv)
